@@ -31,6 +31,7 @@ X7 _export_iter_entries asks tree.is_special_path about the entry's tree path (n
 name). X8 no exporter leaves an iteration of its entry loop early (continue/break), and every normal way through the
 symlink arm of the directory and tar exporters creates the link.
 X9 (third round) the smart Repository.revision_archive handler only decodes `root` (no default substituted on the server side).
+X10 is_special_path (bzr and git trees) recognises special paths by name; a bare startswith(prefix) is reported (bzr: known finding).
 Does not decide: that the bytes written equal the tree's contents (values).
 """
 
@@ -144,8 +145,22 @@ def run(ctx):
     foreign = [f"L{a.lineno}:{norm(a)[:60]}" for a in rassign if not (isinstance(a.value, ast.Call) and call_attr(a.value) == "decode" and norm(a.value.func.value) == rparam)]
     defaults = [norm(c.func) for c in calls_in(fah) if "get_root_name" in norm(c.func)]
     ctx.check("X9-remote-root-verbatim", wah, not foreign and not defaults, "`root` is only decoded before it is passed to the archive generator (the caller already resolved a missing root; an empty one means no root directory)", construct="; ".join(foreign + defaults), message=f"the Repository.revision_archive handler replaces the caller's root ({'; '.join(foreign + defaults)}): an export of a remote revision tree with root='' gets every member under a directory the caller did not ask for, the same export of the local tree does not")
+    # ---- X10: what an export leaves out as "special" is decided by name, not by a bare prefix ----------------------------
+    n_sp = 0
+    for rel_, q_ in (("breezy/bzr/inventorytree.py", "InventoryTree.is_special_path"), ("breezy/git/tree.py", "GitTree.is_special_path")):
+        if not repo.has(rel_, q_):
+            continue
+        n_sp += 1
+        fsp_ = repo.func(rel_, q_)
+        prefixes = [const_value(c.args[0], None) for c in calls_in(fsp_) if call_attr(c) == "startswith" and c.args and isinstance(const_value(c.args[0], None), str) and not const_value(c.args[0], "").endswith("/")]
+        if prefixes:
+            ctx.violation("X10-special-by-name", f"{rel_}:{q_}", f"path.startswith({prefixes[0]!r})", f"{q_} treats every path that starts with {prefixes[0]!r} as special: versioned files and directories whose names merely begin that way ({prefixes[0]}hub/, {prefixes[0]}keep, …) are silently left out of every export although no export option asks for it")
+        else:
+            ctx.check("X10-special-by-name", f"{rel_}:{q_}", True, "special paths are recognised by their (first component's) name")
+    ctx.require(n_sp == 2, "is_special_path implementations not found (hand-confirmed: InventoryTree, GitTree)")
 
 MUTANTS = [
+    Mutant("git special paths by bare prefix again (fix reverted)", "breezy/git/tree.py", '        return path.split("/", 1)[0] in (\n            ".git",\n            ".gitignore",\n            ".gitattributes",\n            ".gitmodules",\n        )\n', '        return path.startswith(".git")\n', expect="X10-special-by-name"),
     Mutant("special-path test on the exported name", EX, "        if skip_special and tree.is_special_path(path):\n            continue\n", "        if skip_special and tree.is_special_path(path if not subdir else path[len(subdir) + 1 :]):\n            continue\n", expect="X7-special-path-on-tree-path"),
     Mutant("directory exporter skips symlinks it cannot create", EX, "        elif ie.kind == \"symlink\":\n            try:\n", "        elif ie.kind == \"symlink\":\n            if not osutils.supports_symlinks(dest):\n                yield\n                continue\n            try:\n", expect="X8-no-entry-skipped"),
     Mutant("zip exporter ignores the executable bit", ZIP, "                    if tree.is_executable(tp):\n                        zinfo.external_attr = _EXECUTABLE_FILE_ATTR\n                    else:\n                        zinfo.external_attr = _FILE_ATTR\n", "                    zinfo.external_attr = _FILE_ATTR\n", expect="X3-executable-bit"),
